@@ -46,6 +46,7 @@ water activity; fixed-volume gas: pressure converged to 1e-3 atm).  Dump text af
 with d1 for the evidence only (the statement speaks of follow-up results there): Serializer drops entity descriptions
 and -viscos_0 on every state, no follow-up depends on them.
 """
+import math
 import os
 import re
 
@@ -85,6 +86,9 @@ E_RESOLUTION = 6e-12           # eq: electron balance carried by a 14-digit dump
 FIXV_CLASS_MAX = 1e-5
 REDOX_FP = "followup-differs redox state beyond the 14 significant digits of the dump (pe without redox poise / minor redox amounts)"
 REDOX_SENSITIVE = ("pe", "si_Goethite", "gas_O2_g_", "gas_O2", "gas_CH4", "m_Fe_2_", "m_Fe_3_", "m_N_5_", "m_N_-3_", "m_S_-2_")
+
+
+SI_OF_REDOX_ELEMENT = {"si_Gypsum": "rx_S(6)"}      # judged SI read-outs of phases built from a valence state of S / N / Fe
 
 
 def is_log(h):
@@ -313,7 +317,12 @@ def followups(blocks, kinetic):
     f = [("cells", pre + "RUN_CELLS\n -cells 1\n -time_step 1800\nEND\n"),
          ("reaction", pre + "USE solution 1\n" + use + "REACTION 7\n HCl 1\n 1 mmol\nEND\n"),
          ("mix", pre + "MIX 7\n 1 0.7\n 2 0.3\n" + use + "END\n"),
-         ("temperature", pre + "USE solution 1\n" + use + "REACTION_TEMPERATURE 7\n 40\nEND\n")]
+         ("temperature", pre + "USE solution 1\n" + use + "REACTION_TEMPERATURE 7\n 40\nEND\n"),
+         # the cell's reactants meet the other water, which lacks most of their elements (Ca, Sr, C, S): a reactant then has to
+         # seed the elements the solution does not contain
+         ("foreign-water", pre + "USE solution 2\n" + use + "END\n")]
+    if not use:
+        f.pop()              # no reactant in the cell: USE solution alone is no calculation
     if ("KINETICS_RAW", 1) in blocks:
         f.append(("kinetics", "INCREMENTAL_REACTIONS true\nRUN_CELLS\n -cells 1\n -time_step 7200\nEND\n"))
     return f
@@ -380,6 +389,12 @@ def compare_tables(ta, tb, info=None):
                     worst = max(worst, rel if rel <= TOL else 0.0)
                 if rel > TOL:
                     lim = False
+                    if h in SI_OF_REDOX_ELEMENT:
+                        # the saturation index follows the element's own valence state; when the row holds so little of it that
+                        # the electron resolution of the capture (E_RESOLUTION) is a visible fraction, the index moves with it
+                        row = dict(zip(ta[0], ra))
+                        amt = max(float(row.get(san(SI_OF_REDOX_ELEMENT[h])) or 0.0), 0.0)
+                        lim = amt > 0.0 and abs(a - b) <= math.log10(1.0 + 2.0 * E_RESOLUTION / amt)
                     if is_redox(h):
                         # beyond what 14 digits carry?  (pe / SI of a redox phase: E_RESOLUTION x 8 electrons / beta; amounts: E_RESOLUTION)
                         lim = (not poised) or (abs(a - b) <= 8.0 * E_RESOLUTION / beta if is_log(h) else abs(a - b) <= 2.0 * E_RESOLUTION)
